@@ -241,6 +241,7 @@ impl Compiler {
                 start,
                 count: count as u16,
             });
+            self.builder.release_registers(start, count as u8);
         } else {
             // Slow path: array has spreads, build incrementally
             // Start with an empty array
@@ -1737,6 +1738,7 @@ impl Compiler {
                 args_start,
                 argc,
             });
+            self.release_arguments(args_start, argc);
             return Ok(());
         }
 
@@ -2176,6 +2178,13 @@ impl Compiler {
                 argc,
             });
         }
+        self.release_arguments(args_start, argc);
+    }
+
+    /// Give back the registers `compile_arguments` reserved, once the call that reads
+    /// them has been emitted (with spread arguments that is the one array register)
+    fn release_arguments(&mut self, args_start: Register, argc: u8) {
+        self.builder.release_registers(args_start, argc);
     }
 
     /// Compile a new expression
@@ -2205,6 +2214,7 @@ impl Compiler {
             });
         }
 
+        self.release_arguments(args_start, argc);
         self.builder.free_register(callee_reg);
         Ok(())
     }
@@ -2309,6 +2319,7 @@ impl Compiler {
             start,
             count: reg_idx,
         });
+        self.builder.release_registers(start, total_parts as u8);
 
         Ok(())
     }
@@ -2425,6 +2436,8 @@ impl Compiler {
         });
 
         // Clean up
+        self.builder
+            .release_registers(exprs_start, exprs_count as u8);
         self.builder.free_register(final_this_reg);
         self.builder.free_register(tag_reg);
 
